@@ -1,8 +1,10 @@
 (* C08 - reported power is the textbook power of the configured test and is monotone.
    Statements about rom_power_from_stats REGENERATED from metrics/mean.py, for every distribution family satisfying the
    laws of lib/Distr.v (incl. L7 location shift of the normal, L9 the noncentral t is stochastically increasing in its
-   noncentrality).  Named partial (validated by the oracle, not proved): monotonicity in n for the t test and two-sided
-   monotonicity in |effect| (they need laws L10/L11 about the distribution families that are not assumed here). *)
+   noncentrality).  Monotonicity in n is proved for the Z test (one-sided alternatives, effect in the direction of the
+   alternative): the standard error is sqrt(v (1+r)^2 / (n r)), pooled or not.  Named partial (validated by the oracle,
+   not proved): monotonicity in n for the t test and two-sided monotonicity in |effect| and in n (they need laws about
+   the distribution families - unimodality, monotonicity of t power in the degrees of freedom - that are not assumed). *)
 From Coq Require Import Reals String List Lra.
 From TT Require Import lib.PreludeR lib.Stats lib.Distr lib.DistrWitness genR.Aggr genR.Mean proofs.Mean_core
   proofs.Mean_aggr proofs.C06_cuped proofs.C08_power.
@@ -52,6 +54,25 @@ Theorem C08_z_power_closed_form delta : cfg_use_t cfg = false -> cfg_alternative
 Proof. apply (power_z_greater fam HF cfg v n); assumption. Qed.
 End Laws.
 
+(* Z test: power strictly increases with the total sample size when the effect points in the direction of the alternative *)
+Theorem C08_z_power_increases_with_n fam cfg v n1 n2 delta : fam_laws fam ->
+  0 < cfg_ratio cfg -> 0 < v -> 0 < cfg_alpha cfg < 1 -> cfg_use_t cfg = false ->
+  1 < n1 / (1 + cfg_ratio cfg) -> 1 < n1 * cfg_ratio cfg / (1 + cfg_ratio cfg) -> n1 < n2 ->
+  (cfg_alternative cfg = Greater -> 0 < delta ->
+     rom_power_from_stats fam cfg v n1 delta < rom_power_from_stats fam cfg v n2 delta) /\
+  (cfg_alternative cfg = Less -> delta < 0 ->
+     rom_power_from_stats fam cfg v n1 delta < rom_power_from_stats fam cfg v n2 delta).
+Proof.
+  intros HF Hr Hv Ha Hz Hc Ht Hlt. split; intros Halt Hd.
+  - apply (power_z_mono_n_greater fam HF cfg v Hr Hv Ha Hz n1 n2 delta); assumption.
+  - apply (power_z_mono_n_less fam HF cfg v Hr Hv Hz n1 n2 delta); assumption.
+Qed.
+Theorem C08_standard_error_closed_form cfg v n : 0 < cfg_ratio cfg -> 0 < v ->
+  1 < n / (1 + cfg_ratio cfg) -> 1 < n * cfg_ratio cfg / (1 + cfg_ratio cfg) ->
+  se_of (cfg_equal_var cfg) v (n / (1 + cfg_ratio cfg)) v (n * cfg_ratio cfg / (1 + cfg_ratio cfg))
+  = sqrt (v * ((1 + cfg_ratio cfg) * (1 + cfg_ratio cfg)) / (n * cfg_ratio cfg)).
+Proof. intros Hr Hv Hc Ht. apply (se_n_closed cfg v Hr Hv n Hc Ht). Qed.
+
 (* adding a covariate never raises the variance that enters the power computation *)
 Theorem C08_covariate_never_raises_variance cfg l : dens_ok cfg l ->
   rom_metric_var cfg (aggr_of l) (theta_of cfg l) <= svar (linY cfg l) l.
@@ -66,3 +87,5 @@ Print Assumptions C08_power_increases_with_effect_greater.
 Print Assumptions C08_power_increases_with_effect_less.
 Print Assumptions C08_z_power_closed_form.
 Print Assumptions C08_covariate_never_raises_variance.
+Print Assumptions C08_z_power_increases_with_n.
+Print Assumptions C08_standard_error_closed_form.
